@@ -9,7 +9,7 @@ of the clang-14 AST yields, as polynomials over the initial element count `n` an
 They are rendered as Lean definitions with the obligations "the index written is inside what was allocated and the
 recorded capacity is not larger than what was allocated", proved by `omega` for all n and c. A shape the extractor does
 not recognise is reported as such (the obligation is then missing, which the check reports)."""
-import json, os, subprocess, sys
+import json, os, re, subprocess, sys
 from fractions import Fraction
 
 REPO = os.environ.get("VERIF_REPO", "/repo")
@@ -141,6 +141,14 @@ class Exec:
         self.alloc_has_sizeof = False
         self.elem_type = None
         self.sizes = set()
+        self.rename = {}        # while a helper is executed in place: its parameters -> what the caller passed
+
+    def path(self, n):
+        t = path_text(n)
+        head = re.split(r"->|\.", t, 1)[0]
+        if head in self.rename:
+            return self.rename[head] + t[len(head):]
+        return t
 
     def val(self, key):
         if key not in self.env:
@@ -151,7 +159,7 @@ class Exec:
         n = strip(n)
         k = n.get("kind")
         if k == "IntegerLiteral": return P(int(n["value"]))
-        if k in ("DeclRefExpr", "MemberExpr"): return self.val(path_text(n))
+        if k in ("DeclRefExpr", "MemberExpr"): return self.val(self.path(n))
         if k == "UnaryExprOrTypeTraitExpr" and n.get("name") == "sizeof":
             t = n.get("argType", {}).get("qualType") or strip(n["inner"][0]).get("type", {}).get("qualType", "?")
             s = "sizeof(" + t + ")"; self.sizes.add(s)
@@ -160,7 +168,7 @@ class Exec:
             a, b = self.expr(n["inner"][0]), self.expr(n["inner"][1])
             return padd(a, b) if n["opcode"] == "+" else padd(a, b, -1) if n["opcode"] == "-" else pmul(a, b)
         if k == "UnaryOperator" and n.get("opcode") in ("++", "--"):
-            key = path_text(n["inner"][0])
+            key = self.path(n["inner"][0])
             old = self.val(key)
             new = padd(old, P(1), 1 if n["opcode"] == "++" else -1)
             self.env[key] = new
@@ -209,14 +217,21 @@ class Exec:
                     self.alloc, self.alloc_has_sizeof = size, has_sizeof
                 return
             if self.inlinable(n):
-                body = [c for c in self.funcs[strip(n["inner"][0])["referencedDecl"]["name"]]["inner"] if c.get("kind") == "CompoundStmt"][0]
+                callee = self.funcs[strip(n["inner"][0])["referencedDecl"]["name"]]
+                body = [c for c in callee["inner"] if c.get("kind") == "CompoundStmt"][0]
+                params = [p_ for p_ in callee.get("inner", []) if p_.get("kind") == "ParmVarDecl"]
+                saved = dict(self.rename)
+                for p_, a_ in zip(params, n["inner"][1:]):
+                    try: self.rename[p_["name"]] = self.path(a_)
+                    except Unsupported: pass
                 self.stmt(body)
+                self.rename = saved
                 return
             for a in n["inner"][1:]:
                 if contains(a, lambda m: m.get("kind") in ("UnaryOperator", "CompoundAssignOperator", "ArraySubscriptExpr")): self.scan(a)
             return
         if k == "CompoundAssignOperator":
-            key = path_text(n["inner"][0]); rhs = self.expr(n["inner"][1]); old = self.val(key)
+            key = self.path(n["inner"][0]); rhs = self.expr(n["inner"][1]); old = self.val(key)
             op = n.get("opcode")
             self.env[key] = padd(old, rhs) if op == "+=" else padd(old, rhs, -1) if op == "-=" else pmul(old, rhs) if op == "*=" else None
             if self.env[key] is None: raise Unsupported("operator " + op)
@@ -229,7 +244,7 @@ class Exec:
                 return
             if lhs.get("kind") == "MemberExpr" and contains(lhs, lambda m: m.get("kind") == "ArraySubscriptExpr"):
                 self.subscript(lhs); return
-            key = path_text(lhs)
+            key = self.path(lhs)
             r = strip(n["inner"][1])
             if contains(r, is_alloc_call):
                 self.scan_rhs(r); return
@@ -270,7 +285,7 @@ class Exec:
         a = find(n)
         if a is None: return
         try:
-            base = path_text(a["inner"][0])
+            base = self.path(a["inner"][0])
         except Unsupported:
             return
         if base == self.site["array"] and self.write is None:
